@@ -157,6 +157,22 @@ def _SimThreadFactory(*a: Any, **k: Any) -> Any:
     return threading_shim.Thread(*a, **k)
 
 
+def executor_shim(max_workers: Any = None, *a: Any, **k: Any) -> Any:
+    if SIM is None:
+        import concurrent.futures
+
+        return concurrent.futures.ThreadPoolExecutor(max_workers, *a, **k)
+    return sched.SimExecutor(SIM, max_workers)
+
+
+def wait_shim(fs: Any, timeout: Any = None, return_when: str = "ALL_COMPLETED") -> Any:
+    if SIM is None:
+        import concurrent.futures
+
+        return concurrent.futures.wait(fs, timeout=timeout, return_when=return_when)
+    return sched.sim_wait(SIM, fs, timeout, return_when)
+
+
 # ---------------------------------------------------------------- file system of the journal
 class _OsPathShim:
     def exists(self, p: str) -> bool:
@@ -258,5 +274,7 @@ def install() -> None:
     _heartbeat.Event = _SimEventFactory
 
     _optimize.datetime = datetime_module_shim
+    _optimize.ThreadPoolExecutor = executor_shim
+    _optimize.wait = wait_shim
     _trial.datetime = datetime_module_shim
     _frozen.datetime = datetime_module_shim
